@@ -73,6 +73,13 @@ static int verif_snprintf(char *buf, size_t size, const char *fmt, ...)
 	}
 	return (int)want;
 }
+/* GNU strchrnul has no body in CBMC's library (its result would be an unconstrained pointer): reference model */
+static char *verif_strchrnul(const char *s, int c)
+{
+	while (*s && *s != (char)c) s++;
+	return (char *)s;
+}
+#define strchrnul verif_strchrnul
 #define snprintf verif_snprintf
 #define pthread_rwlock_init(a, b) 0
 #define pthread_rwlock_destroy(a) 0
